@@ -1,7 +1,7 @@
 -------------------------- MODULE VerbsAggregateGen --------------------------
 EXTENDS VerbsAggregateCases, Json
 VARIABLE x
-Init == x \in Cases
+Init == IsCase(x)
 Next == UNCHANGED x
 Emit == PrintT(ToJson(x))
 =============================================================================
